@@ -222,18 +222,26 @@ class MultiTerm(qcore.Query):
         if not qs:
             return matching.NullMatcher()
 
-        if len(qs) == 1:
+        if constantscore:
+            # To tell the sub-query that score doesn't matter, set weighting
+            # to None
+            if context:
+                context = context.set(weighting=None)
+            else:
+                from whoosh.searching import SearchContext
+                context = SearchContext(weighting=None)
+            if len(qs) == 1:
+                m = qs[0].matcher(searcher, context)
+            else:
+                m = Or(qs).matcher(searcher, context)
+            # Every matching document gets the same score (the boost), however
+            # many terms the query expanded to in this segment
+            if not isinstance(m, matching.NullMatcherClass):
+                m = matching.ConstantScoreWrapperMatcher(m, self.boost)
+        elif len(qs) == 1:
             # If there's only one term, just use it
-            m = qs[0].matcher(searcher, context)
+            m = qs[0].with_boost(self.boost).matcher(searcher, context)
         else:
-            if constantscore:
-                # To tell the sub-query that score doesn't matter, set weighting
-                # to None
-                if context:
-                    context = context.set(weighting=None)
-                else:
-                    from whoosh.searching import SearchContext
-                    context = SearchContext(weighting=None)
             # Or the terms together
             m = Or(qs, boost=self.boost).matcher(searcher, context)
         return m
